@@ -89,7 +89,9 @@ def _post(sk, entry, sig, sigencode, data=None, digest=None, number=None, hashfu
             if entry == "sign_number":
                 ok = v.pubkey.verifies(number, ecdsa.ecdsa.Signature(r, s))
             elif data is not None:
-                ok = v.verify(sig, data, hashfunc=hashfunc, sigdecode=dec, allow_truncate=allow_truncate)
+                # when the key's own default hash is the one that was used, every other call relies on that default
+                hf_arg = None if (hashfunc is v.default_hashfunc and _state["n"] % 2 == 0) else hashfunc
+                ok = v.verify(sig, data, hashfunc=hf_arg, sigdecode=dec, allow_truncate=allow_truncate)
             else:
                 ok = v.verify_digest(sig, digest, sigdecode=dec, allow_truncate=allow_truncate)
             if ok is not True:
@@ -336,6 +338,9 @@ def _run_prod(ctx, rng, cname, part, parts, thorough):
             enc = sigs.ENCODINGS[encname][0]
             dcl = gen.scalar_class(d, n)
             msg = msgs[(i + rep) % len(msgs)]
+            # bytes-like containers are legal for data and digests: bytes, bytearray, memoryview, array('B'), and arrays with wider items
+            cont = ("bytes", "bytearray", "memoryview", "array_B", "bytes", "array_I")[(i // 3 + rep) % 6]
+            wrap = _container(cont)
             base = dict(curve=cname, d=d, enc=encname, hash=hname0)
             if isinstance(what, str):
                 entry = what
@@ -344,13 +349,14 @@ def _run_prod(ctx, rng, cname, part, parts, thorough):
                 stream = sigs.entropy_stream(bytes(rng.getrandbits(8) for _ in range(4096)))
                 key = "%s|%s|%s|%s|%s|%s" % (cname, encname, nonce, dcl, gen.scalar_class(k, n) if nonce == "k" else "-", hname0)
                 info = dict(base, entry=entry, desc="d=%d" % d, k=k if nonce == "k" else None)
+                key = key + "|" + cont
                 if entry == "sign":
                     if nonce == "k":
-                        _call(ctx, "sign", key, info, lambda: sk.sign(msg, sigencode=enc, k=k))
+                        _call(ctx, "sign", key, info, lambda: sk.sign(wrap(msg), sigencode=enc, k=k))
                     else:
-                        _call(ctx, "sign", key, info, lambda: sk.sign(msg, entropy=stream, sigencode=enc))
+                        _call(ctx, "sign", key, info, lambda: sk.sign(wrap(msg), entropy=stream, sigencode=enc))
                 elif entry == "sign_digest":
-                    dg = hf0(msg).digest()
+                    dg = wrap(hf0(msg).digest())
                     if nonce == "k":
                         _call(ctx, "sign_digest", key, info, lambda: sk.sign_digest(dg, sigencode=enc, k=k, allow_truncate=True))
                     else:
@@ -363,9 +369,9 @@ def _run_prod(ctx, rng, cname, part, parts, thorough):
                         _call(ctx, "sign_number", key, info, lambda: sk.sign_number(num, entropy=stream))
                 elif entry == "sign_deterministic":
                     extra = (b"", b"\x01", b"e" * 32)[(i + rep) % 3]
-                    _call(ctx, "sign_deterministic", key + "|x%d" % len(extra), info, lambda: sk.sign_deterministic(msg, sigencode=enc, extra_entropy=extra))
+                    _call(ctx, "sign_deterministic", key + "|x%d" % len(extra), info, lambda: sk.sign_deterministic(wrap(msg), sigencode=enc, extra_entropy=wrap(extra) if cont != "array_I" else extra))
                 else:
-                    dg = hf0(msg).digest()
+                    dg = wrap(hf0(msg).digest())
                     _call(ctx, "sign_digest_deterministic", key, info, lambda: sk.sign_digest_deterministic(dg, sigencode=enc, allow_truncate=True))
             elif what[0] == "sign_digest":
                 k = what[1]
@@ -401,6 +407,23 @@ def _run_prod(ctx, rng, cname, part, parts, thorough):
                     _call(ctx, "sign", key, info, lambda: sk.sign(msg, hashfunc=hf, sigencode=enc, k=k))
                 else:
                     _call(ctx, "sign_deterministic", key, info, lambda: sk.sign_deterministic(msg, hashfunc=hf, sigencode=enc))
+
+
+def _container(kind):
+    import array
+
+    def wrap(b):
+        b = bytes(b)
+        if kind == "bytearray":
+            return bytearray(b)
+        if kind == "memoryview":
+            return memoryview(b)
+        if kind == "array_B":
+            return array.array("B", b)
+        if kind == "array_I" and len(b) % array.array("I").itemsize == 0 and b:
+            return array.array("I", b)
+        return b
+    return wrap
 
 
 def _run_toy(ctx, rng, key, ndig):
